@@ -561,9 +561,10 @@ func errClass(err error) string {
 }
 
 type violation struct {
-	Kind   string      `json:"kind"`
-	What   string      `json:"what"`
-	Detail interface{} `json:"detail,omitempty"`
+	Kind      string      `json:"kind"`
+	What      string      `json:"what"`
+	Detail    interface{} `json:"detail,omitempty"`
+	Behaviour interface{} `json:"behaviour,omitempty"` // replay: the TLC behaviour that was being executed
 }
 
 // harness = one real pool + its stub chain + the recorder fed by the hook
@@ -733,7 +734,7 @@ func (h *harness) violate(kind, what string, detail interface{}) {
 	h.vmu.Lock()
 	defer h.vmu.Unlock()
 	if len(h.viols) < 20 {
-		h.viols = append(h.viols, violation{kind, what, detail})
+		h.viols = append(h.viols, violation{Kind: kind, What: what, Detail: detail})
 	}
 }
 
